@@ -67,6 +67,10 @@ class XYCostFunction_NegLogLikelihood(CostFunction_NegLogLikelihood):
             raise ValueError("Unknown value '%s' for 'axes_to_use': must be one of ('xy', 'y')")
         super(XYCostFunction_NegLogLikelihood, self).__init__(data_point_distribution=data_point_distribution, ratio=ratio)
 
+    def is_data_compatible(self, data):
+        # only the y data are Poisson-distributed: data is the 2D array of x and y values
+        return super(XYCostFunction_NegLogLikelihood, self).is_data_compatible(data[1])
+
 
 class XYCostFunction_GaussApproximation(CostFunction_GaussApproximation):
     def __init__(
